@@ -54,6 +54,13 @@ NOTE = ('trusted base: the reference model in dsim/refmodel.py (a second reading
 
 def main():
     checks = []
+    global NFIXED, NSEEDED
+
+    with open(os.path.join(HERE, 'known_findings.json')) as fp:
+        NFIXED = len(set(f['commit'] for f in json.load(fp)['fixed']))
+
+    NSEEDED = len([d for d in os.listdir(os.path.join(HERE, 'seeded'))
+                   if os.path.isdir(os.path.join(HERE, 'seeded', d))])
 
     for pid in CLAIMED:
         mod = importlib.import_module('dsim.props.' + pid.lower())
@@ -84,10 +91,10 @@ def main():
         'engines': [{
             'name': 'dsim', 'path': '/verif/dsim',
             'serves_properties': CLAIMED,
-            'kind_free_text': 'hand-written deterministic simulator: own PRNG (splitmix64), simulated storage and stream handles with a fault plan, seeded scheduler over cooperative actors (one API call / one reader next() per step), independent reference model of the DiffX spec, ddmin shrinker, scenario JSON = replay file; 16 forked workers',
+            'kind_free_text': 'hand-written deterministic simulator: own PRNG (splitmix64), simulated storage and stream handles with a fault plan, seeded scheduler over cooperative actors (one API call / one reader next() per step), independent reference model of the DiffX spec, ddmin shrinker, scenario JSON = replay file; 16 forked workers, of which a share runs in child processes under another PYTHONHASHSEED and under the interpreter flags -O -bb (replay files record both); stream variants (short reads, seek() returning None, forward-only, None-returning sinks, data not at offset 0), consumers that edit yielded records, shadow readers / writers alive alternately with the observed one, reused reader / DOM reader / DOM writer objects, subclassed argument values',
         }],
         'checks': checks,
-        'notes': 'VERIF_SEED = master seed (default 1); VERIF_BUDGET_S / VERIF_RUNS override the tier budget; exit 0 ok / 1 VIOLATION / 2 HARNESS-ERROR. known_findings.json lists the open findings (C07 short read, two shapes of one root cause; C19 equality blurs JSON number typing) and the 19 repairs committed to /repo with their regression scenarios (regress/), which every run of that property check re-executes. seeded/ holds 136+ independently written breaking changes, all caught (DESIGN.md 12.5).',
+        'notes': 'VERIF_SEED = master seed (default 1); VERIF_BUDGET_S / VERIF_RUNS override the tier budget; VERIF_NO_LANES=1 keeps everything in one process; exit 0 ok / 1 VIOLATION / 2 HARNESS-ERROR. known_findings.json lists the open findings (C07 short read, two shapes of one root cause; C19 equality blurs JSON number typing) and the %d repairs committed to /repo with their regression scenarios (regress/), which every run of that property check re-executes. seeded/ holds %d independently written breaking changes (7 rounds) with, per change, which checks report it (meta.json; DESIGN.md 12.5).' % (NFIXED, NSEEDED),
         'not_applicable': [
             {'property_id': 'C14', 'reason': 'get_unified_diff_hunks is a pure function of an in-memory list of lines: no stream, carried state, second party, schedule or fault for a simulator to control (its totals are exercised incidentally by C13; no claim)'},
             {'property_id': 'C16', 'reason': 'split_lines is a pure function of two byte strings; an algebraic identity with no schedule, clock, fault or interleaving in it (small-scope enumeration or proof would be the fitting technique)'},
